@@ -32,6 +32,19 @@ type parser struct {
 	N      int
 	mask   []string
 	Depth  int
+	nest   int // current depth of parser recursion (expressions and types)
+}
+
+// maxNesting bounds the parser's recursion: deeper input is a parse error instead of running the
+// host into Go's (fatal, unrecoverable) stack limit.
+const maxNesting = 10000
+
+// descend enters one level of parser recursion; the caller decrements p.nest when it leaves.
+func (p *parser) descend() {
+	p.nest++
+	if p.nest > maxNesting {
+		panicf("nesting too deep")
+	}
 }
 
 func symAtPos(pos scanner.Position, symbol string) *token {
@@ -91,6 +104,7 @@ func (p *parser) Expression(rbp int, mask ...string) *token {
 }
 
 func (p *parser) doExpression(rbp int) *token {
+	p.descend()
 	t := p.Token
 	p.Next()
 	left := getSymbol(t).Nud(p, t)
@@ -99,5 +113,6 @@ func (p *parser) doExpression(rbp int) *token {
 		p.Next()
 		left = getSymbol(t).Led(p, t, left)
 	}
+	p.nest--
 	return left
 }
